@@ -34,7 +34,7 @@ def trso_mc(wd, family="A3o", maxdom=1):
             raise MachineryError(f"TRSO design check ({family}): {v} violated\n" + r["out"][-2500:])
         tlc_ok(r, "TRSO MC")
         return {"family": family, "max_domains": maxdom, "generated": r["generated"], "distinct": r["distinct"], "invariants": INVS}
-    return cached(f"trso-mc-{family}-{maxdom}", go)
+    return cached(f"trso-mc-{family}-{maxdom}", go, module="TRSO")
 
 
 def warm():
